@@ -80,6 +80,8 @@ def run(tier, seed):
                         "main-document relation: URLs in src/href attributes masked on both sides; EPUB compared with the complete HTML rendering, ODT with the flat OpenDocument body"]
     srcs = sources()
     if tier == "quick": srcs = [s for i, s in enumerate(srcs) if i % 3 == 0 or "huge" in s or "{=html}" in s]
+    # sources of a few bytes: the archive writer stores members of up to three bytes without compressing them, and must say so in their headers
+    srcs += ["a\n", "a", "ab\n", "abc", "abcd\n", "\n"]
     exe = build.build_harness("asan"); cli = build.build_cli()
     wd = scratch("c09")
     trace = []; problems = []
